@@ -165,6 +165,12 @@ impl ZmtpEngine {
     }
   }
 
+  /// True when data-phase output is a sequence of encrypted records: those carry a running nonce and must
+  /// reach the wire in the order they were sealed, so a control frame may not jump the send queue.
+  pub fn output_must_keep_order(&self) -> bool {
+    !self.framer.is_passthrough()
+  }
+
   /// Encode one data-phase control frame (PING / PONG) with the framer in force.
   fn frame_control(&mut self, msg: crate::Msg) -> Result<Bytes, ZmqError> {
     let mut fb = FrameBatch::new();
